@@ -252,6 +252,7 @@ partial def handle (e : Env) (w : Nat) (op : String) (args : List String) (got :
     | some f => some { model := fmtOpt (f p k), spec := [sp], tags := ("mul." ++ v) :: ordTag c "p" p }
     | none => cls sp (ordTag c "p" p)
   | "eds", [v, p, k, q, m] => do
+    let v := (v.splitOn ".").headD v          -- suffix .p / .q: the result object is an operand; the value is the same
     let p0 ← parsePoint p
     let q ← parsePoint q
     let k ← parseHexInt k
